@@ -96,7 +96,35 @@ def text(t):
         return f"{k} {j(t[1])} " + text(t[2])
     if k == "ref":
         return f"ref {t[1]}"
+    if k == "st":
+        # statically typed nesting of the top t[1] levels of t[2]: specs outermost first, the innermost main source,
+        # then the second sources of the binary levels, innermost first (= left to right in the tree)
+        specs, seconds, cur = [], [], t[2]
+        for _ in range(t[1]):
+            sp, main, sec = level_spec(cur)
+            specs.append(sp)
+            seconds.append(sec)
+            cur = main
+        return (f"st {t[1]} " + " ".join(specs) + " " + text(cur) +
+                "".join(" " + text(x) for x in reversed(seconds) if x is not None))
     raise ValueError(k)
+
+
+def level_spec(t):
+    """(spec text, main source, second source or None) of one adaptor level (see harness/src/bin/c0405.rs, `st`)"""
+    k = t[0]
+    j = lambda xs: " ".join(str(x) for x in xs)
+    if k in ("scale", "offset", "clip", "inspect", "delay"):
+        return f"{k} {t[1]}", t[2], None
+    if k in ("scalepc", "offsetpc"):
+        return f"{k} {j(t[1])}", t[2], None
+    if k == "map":
+        return f"map {t[1]} {t[2]} {t[3]}", t[4], None
+    if k in ("add", "mul"):
+        return k, t[1], t[2]
+    if k == "zip":
+        return f"zip {t[1]} {t[2]}", t[3], t[4]
+    raise ValueError("not an adaptor level: " + str(k))
 
 
 def coq(t):
@@ -131,6 +159,8 @@ def coq(t):
         return f"(TOffsetPC {zl(t[1])} {coq(t[2])})"
     if k == "ref":
         return f"(TRef {z(t[1])})"
+    if k == "st":  # the model side is the ordinary nested tree
+        return coq(t[2])
     raise ValueError(k)
 
 
@@ -203,7 +233,7 @@ def children(t):
         return [t[3], t[4]]
     if k in ("add", "mul"):
         return [t[1], t[2]]
-    if k in ("scale", "offset", "clip", "inspect", "delay", "scalepc", "offsetpc"):
+    if k in ("scale", "offset", "clip", "inspect", "delay", "scalepc", "offsetpc", "st"):
         return [t[2]]
     return []
 
@@ -211,6 +241,8 @@ def children(t):
 def depth(t, bases=()):
     if t[0] == "ref" and bases:
         return depth(bases[t[1]])
+    if t[0] == "st":
+        return depth(t[2], bases)
     cs = children(t)
     return 1 + max(depth(c, bases) for c in cs) if cs else 0
 
@@ -291,6 +323,8 @@ def bound(t, fm, base_bounds=(), arg_bound=0):
     if k == "arg":
         return arg_bound
     rec = lambda c: bound(c, fm, base_bounds, arg_bound)
+    if k == "st":
+        return rec(t[2])
     if k == "map":
         b = rec(t[4])
         if t[2] == 1:
